@@ -50,52 +50,103 @@ def rule_cut(ctx, R="C20.1"):
         # elapsed time with the time box
         lenv = sgrep.lets(lbody)
         forms = ["%s.elapsed() > MAX_ANALYSIS_DURATION" % clock, "%s.elapsed() >= MAX_ANALYSIS_DURATION" % clock, "MAX_ANALYSIS_DURATION < %s.elapsed()" % clock, "MAX_ANALYSIS_DURATION <= %s.elapsed()" % clock]
-        tests = [n for n in walk(lbody) if n["k"] == "If" and ("elapsed()" in render(n["cond"]) or any("elapsed()" in render(lenv[x["path"]]) for x in walk(n["cond"]) if x["k"] == "Path" and x["path"] in lenv) or any("elapsed()" in render(lenv[y["path"]]) for x in walk(n["cond"]) if x["k"] == "Path" and x["path"] in lenv for y in walk(lenv[x["path"]]) if y["k"] == "Path" and y["path"] in lenv))]
-        if len(tests) != 1:
-            ctx.bad(R, key + "/time-box-test", "expected exactly one elapsed-time test inside the loop, found %d" % len(tests), site(CFG, lp))
+        from pathcond import split_cond
+
+        def resolve_c(e, depth=0):
+            e = strip(e)
+            if e["k"] == "Path" and e["path"] in lenv and depth < 3:
+                return resolve_c(lenv[e["path"]], depth + 1)
+            if e["k"] == "Binary":
+                e = dict(e)
+                e["l"], e["r"] = resolve_c(e["l"], depth), resolve_c(e["r"], depth)
+            if e["k"] == "Unary":
+                e = dict(e)
+                e["e"] = resolve_c(e["e"], depth)
+            return e
+
+        def is_timeout(e):
+            return any(sgrep.match(sgrep.pattern(f_), e, {}, lenv) for f_ in forms)
+
+        def mentions_clock(e):
+            return "elapsed()" in render(resolve_c(e))
+
+        # every `if` of the loop body whose condition involves the clock: either the time test itself, or a disjunction
+        # that contains it (`if !changed || timed_out { break }`)
+        tests = []
+        for n in walk(lbody):
+            if n["k"] != "If" or not mentions_clock(n["cond"]):
+                continue
+            fs = split_cond(resolve_c(n["cond"]), True)
+            if len(fs) == 1 and fs[0][0] == "if" and fs[0][2] and is_timeout(fs[0][1]):
+                tests.append((n, "test"))
+            elif len(fs) == 1 and fs[0][0] == "notall" and any(g[0] == "if" and not g[2] and is_timeout(g[1]) for g in fs[0][1]):
+                tests.append((n, "disjunct"))
+            else:
+                tests.append((n, "other"))
+        if not tests:
+            ctx.bad(R, key + "/time-box-test", "no elapsed-time test inside the loop", site(CFG, lp))
             continue
-        t = tests[0]
-        ct = render(t["cond"]).replace(" ", "")
-        okc = any(sgrep.match(sgrep.pattern(f_), t["cond"], {}, lenv) for f_ in forms)
-        ctx.check(R, key + "/time-box-test/compares-own-clock-with-the-time-box", okc, "condition: %s" % ct, site(CFG, t))
-        cs = conditions_to(lbody, t) or []
-        ctx.check(R, key + "/time-box-test/every-iteration", not cs, "the test is only reached under %s" % facts_str(cs), site(CFG, t))
-        # the cut edge
-        stops = [n for n in walk(t["then"]) if (flag and n["k"] == "Assign" and render(n["l"]) == flag and render(n["r"]) == "false") or n["k"] in ("Break", "Return")]
-        ctx.check(R, key + "/cut/stops-the-loop", len(stops) >= 1 and not (conditions_to(t["then"], stops[0]) or []), "the cut must clear the loop flag (or leave the loop) unconditionally", site(CFG, t))
-        writes = [render(n)[:60] for n in walk(t["then"]) if (n["k"] == "MethodCall" and n["method"] in WRITERS) or (n["k"] == "Call" and not render(n["func"]).startswith(("debug", "trace", "warn")))]
-        ctx.check(R, key + "/cut/writes-nothing", not writes, "calls on the cut edge: %s" % writes, site(CFG, t))
-        ctx.check(R, key + "/cut/no-else", t["else"] is None, "the time test must not select between two propagation modes", site(CFG, t))
+        ctx.check(R, key + "/time-box-test/compares-own-clock-with-the-time-box", all(kind_ != "other" for _n, kind_ in tests), "conditions: %s" % [render(n_["cond"])[:60] for n_, _k in tests], site(CFG, tests[0][0]))
+        uncond = [n_ for n_, _k in tests if not (conditions_to(lbody, n_) or [])]
+        ctx.check(R, key + "/time-box-test/every-iteration", bool(uncond), "no time test is reached on every iteration", site(CFG, tests[0][0]))
+        # the cut edge: some test that is reached on every iteration leaves the loop / clears the flag, unconditionally
+        def stops_of(n_):
+            return [x for x in walk(n_["then"]) if (flag and x["k"] == "Assign" and render(x["l"]) == flag and render(x["r"]) == "false") or x["k"] in ("Break", "Return")]
+        stopping = [n_ for n_ in uncond if stops_of(n_) and not (conditions_to(n_["then"], stops_of(n_)[0]) or [])]
+        ctx.check(R, key + "/cut/stops-the-loop", bool(stopping), "the cut must clear the loop flag (or leave the loop) unconditionally", site(CFG, tests[0][0]))
+        writes = [render(x)[:60] for n_, _k in tests for x in walk(n_["then"]) if (x["k"] == "MethodCall" and x["method"] in WRITERS) or (x["k"] == "Call" and not render(x["func"]).startswith(("debug", "trace", "warn")))]
+        ctx.check(R, key + "/cut/writes-nothing", not writes, "calls on the cut edge: %s" % writes, site(CFG, tests[0][0]))
+        ctx.check(R, key + "/cut/no-else", all(n_["else"] is None for n_, _k in tests), "the time test must not select between two propagation modes", site(CFG, tests[0][0]))
+        t = tests[0][0]
         # a cut leaves propagation incomplete: nothing in the function may insist on completeness
         insist = [m_["name"] for m_ in walk(fn["body"]) if m_["k"] == "Macro" and last(m_["name"]) in ("assert", "assert_eq", "assert_ne", "debug_assert", "debug_assert_eq", "panic", "unreachable", "todo", "unimplemented")] + [m_["method"] for m_ in walk(fn["body"]) if m_["k"] == "MethodCall" and m_["method"] in ("unwrap", "expect")]
         ctx.check(R, key + "/no-completeness-assertion", not insist, "assertions / unwraps in the propagation driver: %s (after a cut not every node has a fact)" % insist, site(CFG, fn))
         # no panicking duration arithmetic
         arith = [render(n)[:80] for n in walk(fn["body"]) if n["k"] == "Binary" and n["op"] in ("-", "-=") and ("elapsed()" in render(n) or "DURATION" in render(n))]
         ctx.check(R, key + "/no-duration-subtraction", not arith, "Duration subtraction panics on underflow: %s" % arith, site(CFG, fn))
-        # the iteration visits every block, result or-ed into the flag
+        # the iteration offers every block to propagate_<kind> (a loop, or a short-circuiting `any`)
+        okf, howf = False, ""
+        for coll in ("self.iter_mut()", "self.basic_blocks.iter_mut()", "self.basic_blocks"):
+            if not okf:
+                okf, howf = sgrep.each_calls(lbody, coll, "propagate_" + kind, lenv, allow_guard=lambda c: c[0] == "if" and not c[2] and strip(c[1])["k"] == "Path")
         fors = [n for n in walk(lbody) if n["k"] == "For"]
-        okf = len(fors) == 1 and render(strip(fors[0]["iter"])).replace(" ", "") == "self.iter_mut()" and not (conditions_to(lbody, fors[0]) or [])
-        ctx.check(R, key + "/iteration-over-all-blocks", okf, render(fors[0]["iter"]) if fors else "no loop over blocks", site(CFG, lp))
+        anys = [m_ for m_ in walk(lbody) if m_["k"] == "MethodCall" and m_["method"] == "any" and any(True for _ in method_calls(m_, "propagate_" + kind))]
+        unc = (fors and not (conditions_to(lbody, fors[0]) or [])) or (anys and not [c_ for c_ in (conditions_to(lbody, anys[0]) or []) if c_[0] != "closure"])
+        ctx.check(R, key + "/iteration-over-all-blocks", bool(okf and unc), howf, site(CFG, lp))
+        # the change flag: mutable (`flag = flag || p`, `if !flag { flag = p }`) or the value of the `any`
+        any_flags = [k_ for k_, v_ in lenv.items() if anys and any(x is anys[0] for x in walk(v_))]
         if lp["k"] == "Loop":
-            # loop form: a per-iteration flag, false at the top of the body, and `if !flag { break }` on every iteration
             tops = [s_ for s_ in lbody["stmts"] if s_["k"] == "Local" and s_["pat"]["k"] == "PIdent" and s_["pat"].get("mut") and s_["init"] is not None and render(strip(s_["init"])) == "false"]
-            flag = tops[0]["pat"]["name"] if len(tops) == 1 else None
-            exits_ = [n for n in lbody["stmts"] if n["k"] == "ExprStmt" and n["e"]["k"] == "If" and n["e"] is not t and any(x["k"] == "Break" for x in walk(n["e"]["then"]))]
-            okx = flag is not None and len(exits_) == 1 and render(strip(exits_[0]["e"]["cond"])).replace(" ", "") in ("!%s" % flag,) and exits_[0]["e"]["else"] is None
+            flag = tops[0]["pat"]["name"] if len(tops) == 1 else (any_flags[0] if len(any_flags) == 1 else None)
+            # leaving the loop when nothing changed: an `if` reached on every iteration that breaks and whose condition is
+            # `!flag`, alone or as one disjunct
+            okx = False
+            for n_ in [x for x in lbody["stmts"] if x["k"] == "ExprStmt" and x["e"]["k"] == "If"]:
+                i_ = n_["e"]
+                if not any(x["k"] == "Break" for x in walk(i_["then"])) or i_["else"] is not None or flag is None:
+                    continue
+                fs = split_cond(i_["cond"], True)
+                if (len(fs) == 1 and fs[0][0] == "if" and not fs[0][2] and render(strip(fs[0][1])) == flag) or (len(fs) == 1 and fs[0][0] == "notall" and any(g[0] == "if" and g[2] and render(strip(g[1])) == flag for g in fs[0][1])):
+                    okx = True
             ctx.check(R, key + "/flag-initially-true", flag is not None, "loop form: the body runs at least once", site(CFG, fn))
-            ctx.check(R, key + "/flag-reset-each-iteration", okx, "loop form: `let mut changed = false` at the top of the body and `if !changed { break }` once per iteration", site(CFG, lp))
-        if fors and flag:
+            ctx.check(R, key + "/flag-reset-each-iteration", okx, "loop form: a per-iteration change flag and `if !changed { break }` (alone or as a disjunct) once per iteration", site(CFG, lp))
+        if fors and flag and not anys:
             t2 = render(fors[0]["body"]).replace(" ", "")
             lv = render(fors[0]["pat"])
             okf2 = sgrep.has(fors[0]["body"], "__f = __f || __b.propagate_%s(__e)" % kind, None, {"__f": flag, "__b": lv}) or sgrep.has(fors[0]["body"], "__f = __b.propagate_%s(__e) || __f" % kind, None, {"__f": flag, "__b": lv}) or sgrep.has(fors[0]["body"], "__f |= __b.propagate_%s(__e)" % kind, None, {"__f": flag, "__b": lv}) or sgrep.has(fors[0]["body"], "if !__f { __f = __b.propagate_%s(__e); }" % kind, None, {"__f": flag, "__b": lv})
             ctx.check(R, key + "/flag-accumulates-updates", okf2 and len(fors[0]["body"]["stmts"]) == 1, t2, site(CFG, fors[0]))
+        elif anys:
+            # `flag = blocks.any(..)`: the flag is true iff some block changed
+            okany = (flag is not None and (flag in any_flags or any(a_["k"] == "Assign" and render(a_["l"]) == flag and any(x is anys[0] for x in walk(a_["r"])) for a_ in walk(lbody))))
+            ctx.check(R, key + "/flag-accumulates-updates", bool(okany), "the change flag is the value of the `any` over the blocks", site(CFG, anys[0]))
         elif fors:
             ctx.bad(R, key + "/flag-accumulates-updates", "no loop flag recognised", site(CFG, fors[0]))
         if lp["k"] == "While":
             # flag reset at the top of each iteration and true initially
             ctx.check(R, key + "/flag-initially-true", flag in le and render(strip(le[flag])) == "true", "let %s = %s" % (flag, render(le.get(flag)) if flag in le else "?"), site(CFG, fn))
             first = lbody["stmts"][0] if lbody["stmts"] else None
-            ctx.check(R, key + "/flag-reset-each-iteration", first is not None and render(first).replace(" ", "") == "%s=false;" % flag, render(first) if first else "?", site(CFG, lp))
+            reset_ok = first is not None and (render(first).replace(" ", "") == "%s=false;" % flag or (anys and any(a_["k"] == "Assign" and render(a_["l"]) == flag for a_ in walk(first))))
+            ctx.check(R, key + "/flag-reset-each-iteration", bool(reset_ok), render(first) if first else "?", site(CFG, lp))
     mx = find_item(CFG, "Const", "MAX_ANALYSIS_DURATION")
     if mx is None:
         ctx.missing(R, "MAX_ANALYSIS_DURATION")
